@@ -109,9 +109,21 @@ package nsqd
 //@   ensures[deadline-capped] result == nil ==> lastPopped != nil && lastPopped.pri ==
 //@        min(unixNano(lastNow) + clientMsgTimeout, unixNano(lastPopped.deliveryTS) + curOpts(c.nsqd).MaxMsgTimeout)
 //@   modifies Message.pri, lastNow, lastPopped, c.inFlightMessages, c.inFlightPQ, mapstore(map[MessageID]*Message), elems(*Message), Message.index, deref(inFlightPqueue)
+//   what was asked and what came back, for the TOUCH handler's contract (ghosts declared in zz_contracts_protocol_consumer_verif.go)
+//@   onreturn touchCalls := touchCalls + 1
+//@   onreturn touchChan := c
+//@   onreturn touchClient := clientID
+//@   onreturn touchID := id
+//@   onreturn touchTimeout := clientMsgTimeout
+//@   onreturn touchErr := result
 
 //@ func (c *Channel) FinishMessage(clientID int64, id MessageID) error
 //@   props C02 C13
 //@   requires c != nil
 //@   ensures[finished] result == nil ==> lastPopped != nil
 //@   modifies lastPopped, c.inFlightMessages, c.inFlightPQ, mapstore(map[MessageID]*Message), elems(*Message), Message.index, deref(inFlightPqueue)
+//@   onreturn finCalls := finCalls + 1
+//@   onreturn finChan := c
+//@   onreturn finClient := clientID
+//@   onreturn finID := id
+//@   onreturn finErr := result
